@@ -13,8 +13,8 @@ RULE = ('all CNFs as ordered lists of ordered clauses over variables {a,b,c} (al
 ASSUMPTIONS = ['oracle: 8-row truth table and own resolution replay',
                'decision order of solve_cnf depends on str hashing: fixed by PYTHONHASHSEED; the space is closed under '
                'renaming of variables, so every decision order relative to clause structure is covered']
-WALL_S = 1.0
-LINE_BUDGET = 400000
+WALL_S = 5.0
+LINE_BUDGET = 30000000
 VARS = ['a', 'b', 'c']
 LITS = [(v, s) for v in VARS for s in (True, False)]
 
